@@ -12,6 +12,13 @@ def run(res, a):
     exe = apitrace.build(res)
     outs = {}
     apitrace.run_traces(res, "C10", plan, a.seed, dump=True, exe=exe, keep_outputs=outs)
+    # the ownership queries (mi_heap_contains_block / mi_heap_check_owned / mi_is_in_heap_region) also for segments that come straight
+    # from the OS (arenas disallowed): such segments are known to the allocator only through the segment map
+    import props.C13 as c13
+    oi = c13.option_index()
+    if "disallow_arena_alloc" in oi:
+        apitrace.run_traces(res, "C10", [("heaps", 20 if big else 5, 300), ("boundary", 2, 200)], a.seed + 50, dump=False, exe=exe, tag="_os",
+                            options=[(oi["disallow_arena_alloc"], 1)])
     try:
         import heapmodel
         heapmodel.run_on_outputs(res, outs)
